@@ -402,12 +402,23 @@ def excluded_callers(ctx, F, rid):
                     verdict, why = 'abs', '%s in %s' % (o.key.split('::')[-1], body.path.split('::{')[0])
                 elif o.kind == 'call' and o.key in REL_SOURCES:
                     continue
-                elif o.kind == 'call' and o.key == 'std::iter::Iterator::next':
+                elif o.kind == 'call' and (o.key == 'std::iter::Iterator::next' or str(o.key).split('::')[-1] in ('keys', 'into_keys')):
                     continue        # an element of a listing (keys of the metadata maps are relative by construction: C19.R4 / C14.R6)
                 elif o.kind in ('param', 'upvar') and body.kind == 'closure' and o.kind == 'param' and o.key >= 2:
                     acts = closure_actuals(F, body, o.key - 1)
                     if acts is None:
-                        verdict, why = 'unknown', 'closure parameter of %s' % body.path
+                        # handed to an iterator adaptor (`dst.keys().filter(|p| ..)`): the argument is an element of what is iterated
+                        pb = F.body(body.parent) if body.parent else None
+                        its = []
+                        if pb is not None:
+                            pfl_ = flow_of(pb)
+                            for bb2, t2 in pfl_.calls(lambda c: c.startswith('std::iter::Iterator::')):
+                                if any(x.kind == 'agg' and x.key == body.path for a2 in t2['args'][1:] if a2['k'] != 'const' for x in pfl_.origins(a2)):
+                                    its.append((pb, t2['args'][0]))
+                        if its:
+                            work.extend(its)
+                        else:
+                            verdict, why = 'unknown', 'closure parameter of %s' % body.path
                     else:
                         work.extend(acts)
                 elif o.kind == 'upvar' and body.parent and o.key is not None:
